@@ -11,10 +11,13 @@ pub fn drive_c06(args: &[String]) {
     let runs = arg(args, "--runs").unwrap_or("1:5,2:4,3:3".into());
     let mut sink = Sink::create(&out);
     for r in runs.split(',') {
+        // "3:8u": beyond the bound of the specification's universe; the history is still judged for validity,
+        // numbering and pairwise non-isomorphism of everything emitted, only the completeness half is dropped
         let (d, m) = r.split_once(':').unwrap();
-        let (dim, max): (usize, usize) = (d.parse().unwrap(), m.parse().unwrap());
-        let grp = format!("d{dim}m{max}");
-        let hdr = json!({"ev": "dset_header", "grp": grp, "dim": dim, "max": max});
+        let full = !m.ends_with('u');
+        let (dim, max): (usize, usize) = (d.parse().unwrap(), m.trim_end_matches('u').parse().unwrap());
+        let grp = format!("d{dim}m{max}{}", if full { "" } else { "u" });
+        let hdr = json!({"ev": "dset_header", "grp": grp, "dim": dim, "max": max, "full": full});
         pending(&hdr);
         sink.emit(hdr);
         match catch(|| DSets::new(dim, max).map(|s| (s.set_count(), dset_json(&s))).collect::<Vec<_>>()) {
